@@ -16,6 +16,8 @@
    corr: skip mode: same error flag, same ID set and the same number of IDs as Corridor.corridor_exec fed with the oracle answers;
          measured mode: the same with the filter read off the observed set (L ⊆ obs ⊆ skip-mode model), and no candidate that the
          reference puts clearly inside the radius (hi < radius) is missing.
+   class: gjk_axis_parallel_segment (see axis_parallel below) when the only failed check is the distance reference and the segment runs
+         along a parallel or a meridian.
    prop: Corridor.check_corridor on the observed set (NoDup, zooms, L ⊆ obs, radius 0 ⇒ obs ≡ L, every added ID in the reported box of a
          line voxel), and in measured mode no added ID that the reference puts clearly outside the radius (lo > radius);
          pair: measured ⊆ skipped; sequences: equal arguments ⇒ equal results; negative radius / bad zoom / nil point ⇒ error. *)
@@ -88,9 +90,26 @@ Definition ask_hdist (oracle : oracle_t) (p1 p2 : val) (radius : float) (ids : l
       end
   end.
 
-Record judged := { j_corr : bool; j_prop : bool; j_model : val; j_ok : bool }.   (* j_ok = false: the case cannot be judged *)
-Definition jbad : judged := {| j_corr := false; j_prop := false; j_model := VNil; j_ok := false |}.
-Definition jv c p m : judged := {| j_corr := c; j_prop := p; j_model := m; j_ok := true |}.
+(* j_ok = false: the case cannot be judged;  j_cls: finding class of a failed property check ("-" = none) *)
+Record judged := { j_corr : bool; j_prop : bool; j_model : val; j_ok : bool; j_cls : string }.
+Definition jbad : judged := {| j_corr := false; j_prop := false; j_model := VNil; j_ok := false; j_cls := "-" |}.
+Definition jv c p m : judged := {| j_corr := c; j_prop := p; j_model := m; j_ok := true; j_cls := "-" |}.
+Definition jvc c p m cls : judged := {| j_corr := c; j_prop := p; j_model := m; j_ok := true; j_cls := cls |}.
+
+(* Finding class gjk_axis_parallel_segment (third-party closest_go): for a segment that runs (almost) exactly along a parallel or a
+   meridian — the latitude difference of the stored end points is at most 2^-9 of the longitude difference, or conversely, in degrees;
+   identical end points included — the GJK distance between the segment and a voxel's hull is under-estimated in about 0.1 % of the
+   segment/voxel pairs (by up to 2.5 cell widths; observed only for directions within 1e-6 of the axis, never otherwise and never an
+   over-estimate), so the measured result keeps voxels farther than the radius. A decidable predicate on the arguments: *)
+Definition axis_parallel (p1 p2 : val) : bool :=
+  match p1, p2 with
+  | VL [VF lon1; VF lat1; _], VL [VF lon2; VF lat2; _] =>
+      let dlon := abs (lon1 - lon2)%float in
+      let dlat := abs (lat1 - lat2)%float in
+      ((dlat <=? 0x1p-9 * dlon) || (dlon <=? 0x1p-9 * dlat))%float
+  | _, _ => false
+  end.
+Definition cls_gjk : string := "gjk_axis_parallel_segment".
 
 (* the reference is applied at horizontal zooms 6..35 (below, a cell spans a large part of the globe and the planar hull of its corners is
    far below its footprint) and for an ordinary radius *)
@@ -136,7 +155,9 @@ Definition judge (oracle : oracle_t) (p1 p2 : val) (h v : Z) (radius : float) (s
                             | Some ba, Some bm =>
                                 let far_ok := forallb (fun b => negb (radius <? fst b)%float) ba in       (* no kept voxel clearly outside *)
                                 let near_ok := forallb (fun b => negb (snd b <? radius)%float) bm in      (* no dropped voxel clearly inside *)
-                                jv (same_ids ml ol && near_ok) (structural && far_ok) (ids_val m)
+                                let corr := same_ids ml ol && near_ok in
+                                let cls := if corr && structural && negb far_ok && axis_parallel p1 p2 then cls_gjk else "-" in
+                                jvc corr (structural && far_ok) (ids_val m) cls
                             | _, _ => jbad
                             end
                       | _, _, _, _ => jv false true (ids_val m)   (* the implementation succeeded where the oracles / model did not *)
@@ -146,7 +167,17 @@ Definition judge (oracle : oracle_t) (p1 p2 : val) (h v : Z) (radius : float) (s
         end
     end.
 
-Definition verdict_of (j : judged) : verdict := if j_ok j then mkv (j_corr j) (j_prop j) "-" (j_model j) else bad_case.
+Definition verdict_of (j : judged) : verdict := if j_ok j then mkv (j_corr j) (j_prop j) (j_cls j) (j_model j) else bad_case.
+(* several judged calls in one case: a failed check outside every finding class (or a failed relation between the calls) decides;
+   otherwise the class of the failed check is reported, and only when the correspondence holds *)
+Definition hard_fail (j : judged) : bool := negb (j_prop j) && String.eqb (j_cls j) "-".
+Definition soft_class (js : list judged) : string :=
+  match filter (fun j => negb (j_prop j)) js with j :: _ => j_cls j | [] => "-" end.
+Definition combine_verdict (js : list judged) (extra : bool) (model : val) : verdict :=
+  let corr := forallb j_corr js in
+  let prop := forallb j_prop js && extra in
+  let cls := if corr && extra && negb (existsb hard_fail js) then soft_class js else "-" in
+  mkv corr prop cls model.
 
 Definition d_corridor (oracle : oracle_t) (args : list val) (obs : val) : verdict :=
   match args with
@@ -167,12 +198,16 @@ Definition d_pair (oracle : oracle_t) (args : list val) (obs : val) : verdict :=
                    | Some (Ok _), Some Err => false
                    | _, _ => true
                    end in
-        mkv (j_corr jm && j_corr js) (j_prop jm && j_prop js && sub) "-" (VL [j_model jm; j_model js])
+        combine_verdict [jm; js] sub (VL [j_model jm; j_model js])
   | [_; _; _; _; _], VS _ => if is_ood obs then mkv true true "-" VNil else bad_case
   | _, _ => bad_case
   end.
 
-(* equal arguments give equal results (the function has no memory) *)
+(* equal arguments give equal results (the function has no memory): the same error flag, and in skip mode the same IDs.
+   In measured mode the IDs are not compared between two calls: each result is already pinned down by its own checks except for voxels
+   whose distance equals the radius within float noise (the implementation reuses one closest.Measure across the candidates, which come
+   in map order, so such a voxel may be kept by one call and dropped by the next; seen with radius 4e-11 m) *)
+Definition is_skip_call (c : val) : bool := match c with VL [_; _; _; _; _; VB b] => b | _ => false end.
 Definition same_outcome (a b : val) : bool :=
   match res_of_ids a, res_of_ids b with
   | Some (Ok x), Some (Ok y) => same_ids x y
@@ -180,10 +215,18 @@ Definition same_outcome (a b : val) : bool :=
   | None, None => is_ood a && is_ood b
   | _, _ => false
   end.
-Fixpoint deterministic {A} (same : A -> A -> bool) (l : list (val * A)) : bool :=
+Definition same_flag (a b : val) : bool :=
+  match res_of_ids a, res_of_ids b with
+  | Some (Ok _), Some (Ok _) => true
+  | Some Err, Some Err => true
+  | None, None => is_ood a && is_ood b
+  | _, _ => false
+  end.
+Definition same_outcome_call (c : val) (a b : val) : bool := if is_skip_call c then same_outcome a b else same_flag a b.
+Fixpoint deterministic {A} (same : val -> A -> A -> bool) (l : list (val * A)) : bool :=
   match l with
   | [] => true
-  | (a, r) :: t => forallb (fun q => if val_eqb a (fst q) then same r (snd q) else true) t && deterministic same t
+  | (a, r) :: t => forallb (fun q => if val_eqb a (fst q) then same a r (snd q) else true) t && deterministic same t
   end.
 
 Definition d_sequence (oracle : oracle_t) (args : list val) (obs : val) : verdict :=
@@ -196,8 +239,8 @@ Definition d_sequence (oracle : oracle_t) (args : list val) (obs : val) : verdic
                                  | _ => jbad end) (combine calls results) in
         if negb (forallb j_ok js) then bad_case
         else
-          let det := deterministic same_outcome (combine calls results) in
-          mkv (forallb j_corr js) (forallb j_prop js && det) "-" (VL (map j_model js))
+          let det := deterministic same_outcome_call (combine calls results) in
+          combine_verdict js det (VL (map j_model js))
   | _, _ => bad_case
   end.
 
@@ -243,8 +286,8 @@ Definition d_fit_sequence (_ : oracle_t) (args : list val) (obs : val) : verdict
                                  | _ => jbad end) (combine calls results) in
         if negb (forallb j_ok js) then bad_case
         else
-          let det := deterministic same_fit (combine calls results) in
-          mkv (forallb j_corr js) (forallb j_prop js && det) "-" (VL (map j_model js))
+          let det := deterministic (fun _ => same_fit) (combine calls results) in
+          combine_verdict js det (VL (map j_model js))
   | _, _ => bad_case
   end.
 
